@@ -87,7 +87,7 @@ void World::build_common()
 		S.faults.max_delay = (uint64_t)f.geti("max_delay_us");
 		if (f.has("hold_cmd")) { S.faults.hold_cmd = f.gets("hold_cmd")[0]; S.faults.hold_delay = (uint64_t)f.geti("hold_delay_us"); S.faults.hold_dir = (int)f.geti("hold_dir"); }
 		S.faults.p_redeliv = f.getd("p_redeliv"); S.faults.p_rd_newid = f.getd("p_rd_newid"); S.faults.p_rd_recase = f.getd("p_rd_recase");
-		S.faults.p_rd_altsrc = f.getd("p_rd_altsrc"); S.faults.p_rd_retype = f.getd("p_rd_retype"); S.faults.p_rd_altport = f.getd("p_rd_altport"); S.faults.rd_max_delay = (uint64_t)f.geti("rd_max_delay_us"); S.faults.rawlate = f.getb("rawlate"); S.faults.rawlate_min = (uint64_t)f.geti("rawlate_min_us"); S.faults.rawlate_max = (uint64_t)f.geti("rawlate_max_us");
+		S.faults.p_rd_altsrc = f.getd("p_rd_altsrc"); S.faults.p_rd_retype = f.getd("p_rd_retype"); S.faults.p_rd_altport = f.getd("p_rd_altport"); S.faults.rd_max_delay = (uint64_t)f.geti("rd_max_delay_us"); S.faults.p_rd_again = f.getd("p_rd_again"); S.faults.rawlate = f.getb("rawlate"); S.faults.rawlate_min = (uint64_t)f.geti("rawlate_min_us"); S.faults.rawlate_max = (uint64_t)f.geti("rawlate_max_us");
 	}
 	// explicit fates
 	const J &fl = plan["fates"];
